@@ -458,6 +458,20 @@ let run_pairmatch line =
     Printf.sprintf " %s:%s:%s:%s:%s:%s:%s:%s:%s:%s:%s" (d t.kty) (d t.kst) (d t.kln) (d t.knx) (d t.kpv) (d t.kch) (d t.ktl) (d t.kmt)
       (bi f.can_open) (bi f.can_close) (bi f.unmatched)) s.hp)
 
+(* ---------- verified heap oracles (proofs/PairMatchProofs.v: dl_check, msym_check, order_check, proved sound):
+   "<n> type:start:len:next:prev:child:tail:mate[:...] ..." -> "<dl><msym><order>" as 0/1 digits *)
+let run_heapcheck line =
+  match split_on ' ' line with
+  | _ :: toks ->
+    let big = n_of_int 1073741823 in
+    let nn s = if String.length s > 0 && s.[0] = '-' then big else n_of_dec s in
+    let h = List.map (fun x -> match String.split_on_char ':' x with
+      | ty :: st :: ln :: nx :: pv :: ch :: tl :: mt :: _ -> { kty = nn ty; kst = nn st; kln = nn ln; knx = nn nx; kpv = nn pv; kch = nn ch; ktl = nn tl; kmt = nn mt }
+      | _ -> failwith "bad token") toks in
+    let b x = if x then "1" else "0" in
+    b (dl_check h) ^ b (msym_check h) ^ b (order_check h)
+  | _ -> "000"
+
 let () =
   let model = Sys.argv.(1) in
   let f = match model with
@@ -478,6 +492,7 @@ let () =
     | "blocks" -> run_blocks
     | "surgery" -> run_surgery
     | "pairmatch" -> run_pairmatch
+    | "heapcheck" -> run_heapcheck
     | _ -> failwith "unknown model" in
   try while true do
     let line = input_line stdin in
